@@ -25,7 +25,8 @@ Definition sty_bytes (t : sty) : Z := match t with F32 | I32 | U32 => 4 | _ => 8
 Inductive prim :=
 | PArray (m : nat) (t : sty)                          (* array<vector_d<t,m>> : one flat index -> m x t, by reference *)
 | PConstant (n : nat) (tc : sty) (m : nat) (tv : sty)  (* constant<vector_d<tc,n>, vector_d<tv,m>> *)
-| PIdentity (n : nat) (t : sty).                      (* identity<vector_d<t,n>> *)
+| PIdentity (n : nat) (t : sty)                       (* identity<vector_d<t,n>> *)
+| PProbe (n : nat) (tc : sty) (m : nat) (tv : sty).   (* harness probe backend: records every coordinate it is asked for, returns a hash of it *)
 
 Inductive layer :=
 | LStrided (n : nat) (tc : sty)
@@ -44,6 +45,7 @@ Definition prim_kind (p : prim) : option kind :=
   | PArray m t => if is_float t && (0 <? m)%nat then Some {| k_n := 1; k_tc := U64; k_m := m; k_tv := t; k_ref := true; k_scalar := true |} else None
   | PConstant n tc m tv => if (0 <? n)%nat && (0 <? m)%nat then Some {| k_n := n; k_tc := tc; k_m := m; k_tv := tv; k_ref := false; k_scalar := false |} else None
   | PIdentity n t => if (0 <? n)%nat then Some {| k_n := n; k_tc := t; k_m := n; k_tv := t; k_ref := false; k_scalar := false |} else None
+  | PProbe n tc m tv => if (0 <? n)%nat && (0 <? m)%nat then Some {| k_n := n; k_tc := tc; k_m := m; k_tv := tv; k_ref := false; k_scalar := false |} else None
   end.
 
 Definition is_perm_of_range (p : list nat) (n : nat) : bool :=
@@ -102,8 +104,27 @@ Record sops := {
   f_mul : sty -> Z -> Z -> Z;
   f_trunc : sty -> Z -> Z;               (* std::trunc *)
   f_lrint : sty -> Z -> Z;               (* std::lrint at the argument's own precision -> long *)
-  f_of_Z : sty -> Z -> Z                 (* the float with that integer value (small integers) *)
+  f_of_Z : sty -> Z -> Z;                (* the float with that integer value (small integers) *)
+  s_finite : sty -> Z -> bool;           (* neither infinite nor NaN (integers: always) *)
+  f_toZ : sty -> Z -> Z                  (* the value truncated toward zero, as an unbounded integer *)
 }.
+
+(* representable in an integer type *)
+Definition sty_range (t : sty) (z : Z) : bool :=
+  match t with
+  | U64 => (0 <=? z) && (z <? 2 ^ 64) | U32 => (0 <=? z) && (z <? 2 ^ 32)
+  | I64 => (- 2 ^ 63 <=? z) && (z <? 2 ^ 63) | I32 => (- 2 ^ 31 <=? z) && (z <? 2 ^ 31)
+  | _ => true
+  end.
+
+(* every coordinate inside the extents: the documented domain of the storage-order layers (their
+   assert(c[i] < m_sizes[i]), with a negative signed coordinate converting to a huge unsigned one) *)
+Fixpoint in_boxb (c sizes : list Z) : bool :=
+  match c, sizes with
+  | x :: c', s :: ss => (0 <=? x) && (x <? s) && in_boxb c' ss
+  | [], [] => true
+  | _, _ => false
+  end.
 
 Section Eval.
   Variable ops : sops.
@@ -135,12 +156,13 @@ Section Eval.
 
   (* ---- layers, each a function of an arbitrary backend [b] ---- *)
   Definition strided_at (tc : sty) (sizes : list Z) (b : query) : query :=
-    fun c => b [wrap_sty tc (rowmajor sizes c)].
-  Definition morton_at (n : nat) (b : query) : query :=
-    fun c => b [morton n (Z.to_nat (64 / Z.of_nat n)) (map (fun x => x mod 2 ^ 64) c)].
+    fun c => if in_boxb c sizes then b [wrap_sty tc (rowmajor sizes c)] else None.
+  Definition morton_at (n : nat) (sizes : list Z) (b : query) : query :=
+    fun c => if in_boxb c sizes
+             then b [morton n (Z.to_nat (64 / Z.of_nat n)) (map (fun x => x mod 2 ^ 64) c)] else None.
   Definition hilbert_at (sizes : list Z) (b : query) : query :=
     fun c => match c with
-             | [x; y] => b [Hl (Z.to_nat (curve_bits sizes)) x y]
+             | [x; y] => if in_boxb c sizes then b [Hl (Z.to_nat (curve_bits sizes)) x y] else None
              | _ => None
              end.
   Definition clamp_at (t : sty) (lo hi : list Z) (b : query) : query :=
@@ -150,8 +172,16 @@ Section Eval.
   Definition shuffle_at (p : list nat) (b : query) : query :=
     fun c => b (map (fun i => nth i c 0) p).
   Definition deref_at (b : query) : query := b.
+  (* a float -> integer static_cast is defined only when the truncated value is representable *)
+  Definition conv_defined (from to : sty) (v : Z) : bool :=
+    if is_float from && negb (is_float to) then s_finite ops from v && sty_range to (f_toZ ops from v) else true.
+  (* covariant_cast::at evaluates m_backend.at(c)[Is] once PER OUTPUT COMPONENT *)
   Definition cast_at (from to : sty) (b : query) : query :=
-    fun c => match b c with Some (tr, v) => Some (tr, map (s_conv ops from to) v) | None => None end.
+    fun c => match b c with
+             | Some (tr, v) => if forallb (conv_defined from to) v
+                               then Some (concat (map (fun _ => tr) v), map (s_conv ops from to) v) else None
+             | None => None
+             end.
 
   (* affine: v' = A * (v ++ [1]) with the summation order of algebra/matrix.hpp:
      t = 0; for k: t += A(i,k) * r(k) *)
@@ -172,7 +202,8 @@ Section Eval.
   (* nearest neighbour: each component rounded with lrint at the coordinate's precision, then
      converted to the backend's index type *)
   Definition nearest_at (tc tidx : sty) (b : query) : query :=
-    fun c => b (map (fun x => s_conv ops I64 tidx (f_lrint ops tc x)) c).
+    fun c => if forallb (fun x => s_finite ops tc x && sty_range I64 (f_lrint ops tc x)) c
+             then b (map (fun x => s_conv ops I64 tidx (f_lrint ops tc x)) c) else None.
 
   (* linear interpolation.  Cell: i_k = static_cast<index>(x_k) (truncation), a_k = x_k - trunc x_k,
      ra_k = 1 - a_k.  Neighbours n in [0, 2^N).  Specialised branches (N = 1,2,3) enumerate with the
@@ -220,6 +251,7 @@ Section Eval.
       let special := (N <=? 3)%nat in
       let ns := seq 0 (2 ^ N) in
       let corners := map (if special then corner_special tidx is_ else corner_generic tidx is_) ns in
+      if negb (forallb (conv_defined tc tidx) c) then None else
       match gather b corners with
       | None => None
       | Some (tr, vals) =>
@@ -227,18 +259,19 @@ Section Eval.
           let w := map (if special then weight_special tc a ra else weight_generic tc a ra) ns in
           let comp (q : nat) : Z :=
             let terms := map (fun '(wn, v) => f_mul ops tc wn (s_conv ops tv tc (nth q v 0))) (combine w vals) in
-            let total :=
-              if special then
+            if special then
+              (* the whole expression is evaluated at the coordinate precision, then stored *)
+              s_conv ops tc tv
                 match terms with
                 | [] => f_of_Z ops tc 0
                 | t0 :: rest => fold_left (f_add ops tc) rest t0
                 end
-              else
-                (* rv[q] = 0.f; rv[q] += f * v : the accumulator has the STORED type *)
-                s_conv ops tv tc
-                  (fold_left (fun acc term => s_conv ops tc tv (f_add ops tc (s_conv ops tv tc acc) term))
-                             terms (f_of_Z ops tv 0))
-            in s_conv ops tc tv total in
+            else
+              (* rv[q] = 0.f; rv[q] += f * v : the accumulator has the STORED type, each addition is done
+                 at the wider of the two types (usual arithmetic conversions) and stored back *)
+              let common := if sty_eqb tc F64 || sty_eqb tv F64 then F64 else F32 in
+              fold_left (fun acc term => s_conv ops common tv (f_add ops common (s_conv ops tv common acc) (s_conv ops tc common term)))
+                        terms (f_of_Z ops tv 0) in
           Some (tr, map comp (seq 0 M))
       end.
 
@@ -251,12 +284,20 @@ Section Eval.
              end.
   Definition constant_at (v : list Z) : query := fun _ => Some ([], v).
   Definition identity_at : query := fun c => Some ([], c).
+  (* the probe: the trace is the coordinate itself (scalars as the case files carry them), the value a
+     small hash of it, converted to the output scalar type *)
+  Definition probe_hash (c : list Z) (j : nat) : Z :=
+    (fold_left (fun acc '(k, x) => acc + (x mod 1009) * (2 * Z.of_nat k + 7)) (combine (seq 0 (length c)) c) 0
+     + 5 * Z.of_nat j) mod 97.
+  Definition probe_at (m : nat) (tv : sty) : query :=
+    fun c => Some (c, map (fun j => f_of_Z ops tv (probe_hash c j)) (seq 0 m)).
 
   Definition prim_at (p : prim) (d : pdat) : query :=
     match p, d with
     | PArray m _, DArray len data => array_at m len data
     | PConstant _ _ _ _, DConst v => constant_at v
     | PIdentity _ _, DIdent => identity_at
+    | PProbe _ _ m tv, DIdent => probe_at m tv
     | _, _ => fun _ => None
     end.
 
@@ -264,7 +305,7 @@ Section Eval.
   Definition layer_at (l : layer) (k : kind) (g : cfg) (b : query) : query :=
     match l, g with
     | LStrided _ tc, CSizes s => strided_at tc s b
-    | LMorton n _ _, CSizes _ => morton_at n b
+    | LMorton n _ _, CSizes s => morton_at n s b
     | LHilbert _, CSizes s => hilbert_at s b
     | LClamp, CBox lo hi => clamp_at (k_tc k) lo hi b
     | LBackup, CBackup lo hi d => backup_at (k_tc k) lo hi d b
